@@ -625,12 +625,15 @@ def DurationGuard (s : Sequence) : Prop :=
     (∀ sub : SubSeq, x.2 = .sub sub → ∀ y ∈ sub.data,
       (∃ q, Dict.get? sub.sequencing y.1 = some q) ∧ ∃ d, y.2.duration = .ok d)
 
+/-- helper (C18 points): `elPoints` is the value `Element.points` returns -/
 theorem elPoints_of_ok (e : Element) (p : ℤ) (h : e.points = .ok p) : elPoints e = p := by
   simp [elPoints, h]
 
+/-- helper (C18 duration): `elDuration` is the value `Element.duration` returns -/
 theorem elDuration_of_ok (e : Element) (d : ℚ) (h : e.duration = .ok d) : elDuration e = d := by
   simp [elDuration, h]
 
+/-- helper (C18 duration): `nrepAt` is the `nrep` of the stored sequencing entry -/
 theorem nrepAt_of_get (tbl : Dict ℤ SeqSet) (pos : ℤ) (q : SeqSet) (h : Dict.get? tbl pos = some q) :
     nrepAt tbl pos = q.nrep := by
   simp [nrepAt, h]
@@ -870,6 +873,7 @@ def exBuiltZero : Sequence :=
   (SeqCore.setSequencing (Sequence.addElement (SeqCore.setSR {} (.num 10)) 1
     (({} : Element).addBluePrint (.int 1) exBP).st).st 1 (fun q => { q with nrep := 0 })).st
 
+/-- non-vacuity (C18 points/duration of API-built sequences): the example is built through the public API -/
 theorem exBuiltZero_built : Sequence.ApiBuilt exBuiltZero :=
   .setSequencing _ _ _ (.addElement _ _ _ (.setSpec _ _ _ .empty) (.addBluePrint _ _ _ .empty))
 
